@@ -74,7 +74,6 @@ type StdScheduler struct {
 	interrupt chan struct{}
 	cancel    context.CancelFunc
 	feeder    chan ScheduledJob
-	dispatch  chan ScheduledJob
 	started   bool
 	run       uint64 // counts the calls of Start that started the scheduler
 
@@ -247,7 +246,6 @@ func NewStdScheduler(opts ...SchedulerOpt) (Scheduler, error) {
 	scheduler := &StdScheduler{
 		interrupt:   make(chan struct{}, 1),
 		feeder:      make(chan ScheduledJob),
-		dispatch:    make(chan ScheduledJob),
 		queue:       NewJobQueue(),
 		queueLocker: &sync.Mutex{},
 		opts:        config,
@@ -323,12 +321,16 @@ func (sched *StdScheduler) Start(ctx context.Context) {
 	run := sched.run
 	go func() { <-ctx.Done(); sched.stopRun(run) }()
 
+	// every run hands its jobs to its own workers: a worker of a previous run
+	// that is still busy must not receive the jobs of this run
+	dispatch := make(chan ScheduledJob)
+
 	// start scheduler execution loop
 	sched.wg.Add(1)
-	go sched.startExecutionLoop(ctx)
+	go sched.startExecutionLoop(ctx, dispatch)
 
 	// starts worker pool if configured
-	sched.startWorkers(ctx)
+	sched.startWorkers(ctx, dispatch)
 
 	sched.started = true
 }
@@ -524,7 +526,7 @@ func (sched *StdScheduler) stop() {
 	sched.started = false
 }
 
-func (sched *StdScheduler) startExecutionLoop(ctx context.Context) {
+func (sched *StdScheduler) startExecutionLoop(ctx context.Context, dispatch chan ScheduledJob) {
 	defer sched.wg.Done()
 	const maxTimerDuration = time.Duration(1<<63 - 1)
 	timer := time.NewTimer(maxTimerDuration)
@@ -553,7 +555,7 @@ func (sched *StdScheduler) startExecutionLoop(ctx context.Context) {
 				return
 			}
 			sched.logger.Trace("Tick")
-			fetchFailed = !sched.executeAndReschedule(ctx)
+			fetchFailed = !sched.executeAndReschedule(ctx, dispatch)
 
 		case <-sched.interrupt:
 			if ctx.Err() != nil {
@@ -574,7 +576,7 @@ func (sched *StdScheduler) startExecutionLoop(ctx context.Context) {
 	}
 }
 
-func (sched *StdScheduler) startWorkers(ctx context.Context) {
+func (sched *StdScheduler) startWorkers(ctx context.Context, dispatch chan ScheduledJob) {
 	if !sched.opts.BlockingExecution && sched.opts.WorkerLimit > 0 {
 		sched.logger.Debug("Starting scheduler workers", "n", sched.opts.WorkerLimit)
 		for i := 0; i < sched.opts.WorkerLimit; i++ {
@@ -585,7 +587,7 @@ func (sched *StdScheduler) startWorkers(ctx context.Context) {
 					select {
 					case <-ctx.Done():
 						return
-					case scheduled := <-sched.dispatch:
+					case scheduled := <-dispatch:
 						sched.executeWithRetries(ctx, scheduled.JobDetail())
 					}
 				}
@@ -619,7 +621,7 @@ func (sched *StdScheduler) calculateNextTick() time.Duration {
 
 // executeAndReschedule returns false if no job could be fetched because the
 // queue failed.
-func (sched *StdScheduler) executeAndReschedule(ctx context.Context) bool {
+func (sched *StdScheduler) executeAndReschedule(ctx context.Context, dispatch chan ScheduledJob) bool {
 	// fetch a job for processing
 	scheduled, valid, err := sched.fetchAndReschedule()
 	if err != nil {
@@ -635,7 +637,7 @@ func (sched *StdScheduler) executeAndReschedule(ctx context.Context) bool {
 			sched.executeWithRetries(ctx, scheduled.JobDetail())
 		case sched.opts.WorkerLimit > 0:
 			select {
-			case sched.dispatch <- scheduled:
+			case dispatch <- scheduled:
 			case <-ctx.Done():
 				return true
 			}
